@@ -10,6 +10,8 @@ pub mod c05;
 pub mod c09;
 pub mod c10;
 #[cfg(not(feature = "stateless"))]
+pub mod c11;
+#[cfg(not(feature = "stateless"))]
 pub mod c12;
 #[cfg(not(feature = "stateless"))]
 pub mod c13;
@@ -17,6 +19,8 @@ pub mod c14;
 #[cfg(all(not(feature = "stateless"), any(feature = "pm", feature = "full")))]
 pub mod c16;
 pub mod c17;
+#[cfg(not(feature = "stateless"))]
+pub mod c18;
 pub mod c19;
 pub mod c20;
 pub mod ctree;
@@ -27,6 +31,8 @@ pub fn run(prop: &str, rep: &mut Rep, args: &[String]) -> bool {
         "C01" => c01::run(rep),
         #[cfg(not(feature = "stateless"))]
         "C02" => c02::run(rep),
+        #[cfg(not(feature = "stateless"))]
+        "C11" => c11::run(rep, args),
         #[cfg(not(feature = "stateless"))]
         "C12" => c12::run(rep),
         #[cfg(not(feature = "stateless"))]
@@ -44,6 +50,8 @@ pub fn run(prop: &str, rep: &mut Rep, args: &[String]) -> bool {
         #[cfg(all(not(feature = "stateless"), any(feature = "pm", feature = "full")))]
         "C16" => c16::run(rep),
         "C17" => c17::run(rep, args),
+        #[cfg(not(feature = "stateless"))]
+        "C18" => c18::run(rep, args),
         "C19" => c19::run(rep),
         "C20" => c20::run(rep),
         _ => return false,
@@ -55,6 +63,10 @@ pub fn run(prop: &str, rep: &mut Rep, args: &[String]) -> bool {
 pub fn subcommand(name: &str, args: &[String]) -> Option<i32> {
     match name {
         "c14-child" => Some(c14::child(args)),
+        #[cfg(not(feature = "stateless"))]
+        "c18-transcript" => Some(c18::transcript_child(args)),
+        #[cfg(not(feature = "stateless"))]
+        "c18-firstuse" => Some(c18::firstuse_child(args)),
         #[cfg(all(not(feature = "stateless"), any(feature = "pm", feature = "full")))]
         "c16-child" => Some(c16::child(args)),
         #[cfg(all(not(feature = "stateless"), any(feature = "pm", feature = "full")))]
